@@ -373,6 +373,9 @@ def r_expr(e):
         if kind.startswith("assign"):
             return "(%s %s %s)" % (kind, " ".join("%s %s" % (n, r_expr(x)) for n, x in binds), r_expr(body))
         return "(%s (%s) %s)" % (kind, " ".join("(%s %s)" % (n, r_expr(x)) for n, x in binds), r_expr(body))
+    if k == "modwrap":
+        # an embedded (mod ...) form written literally in the expression; its value is dropped
+        return "(r (c (mod (Z) (+ Z 1)) %s))" % r_expr(e[1])
     if k == "lambda":
         caps, params, body, args = e[1], e[2], e[3], e[4]
         head = "(%s %s)" % ("(& %s)" % " ".join(caps) if caps else "(&)", " ".join(params)) if True else ""
@@ -551,6 +554,8 @@ def ev(e, env, funs, macros, consts):
             for n, x in seq:
                 env2[n] = ev(x, env2, funs, macros, consts)
         return ev(body, env2, funs, macros, consts)
+    if k == "modwrap":
+        return ev(e[1], env, funs, macros, consts)
     if k == "lambda":
         caps, params, body, args = e[1], e[2], e[3], e[4]
         env2 = {c: env[c] for c in caps}
@@ -617,6 +622,8 @@ def subexprs(e, path=()):
         yield from subexprs(e[3], path + (3,))
         for i, a in enumerate(e[4]):
             yield from subexprs(a, path + (4, i))
+    elif k == "modwrap":
+        yield from subexprs(e[1], path + (1,))
 
 
 def replace_at(e, path, new):
@@ -792,7 +799,7 @@ def known_class(prog, dialect, opt):
         return "D10-strict21-optimized"
     if dialect == "cl22" and (main_has_if(prog) or any(f["kind"] == "inline" for f in prog["funs"])):
         return "D18-cl22-identifier-leak"
-    if dialect != "classic" and (at_with_let(prog) or inline_with_at(prog)):
+    if dialect != "classic" and at_with_let(prog):
         return "D19-at-capture-with-let"
     if dialect in ("cl23", "strict21") and zero_literal_condition(prog):
         return "D32-cl23-zero-literal-condition"
